@@ -27,6 +27,10 @@ import progs
 THEOREM_MODULES = ["Yarel.Props.C12"]
 REQUIRED_THEOREMS = ["coherent_fixed", "bucketed_refines_assoc", "assoc_is_map_by_eq", "unhashable_rejected_unchanged",
                      "nan_keys", "coherent_fails_neg_zero"]
+# the state the models abstract is all the state there is: the fields of the run-time structures, regenerated on every run, are the ones
+# the models were written against (Props/StateInventory)
+THEOREM_MODULES.append("Yarel.Props.StateInventory")
+REQUIRED_THEOREMS += ['state_of_strings_and_maps']
 LEVEL = "proof"
 ASSUMPTIONS = [
     "model Yarel/Model/HashMapM.lean transcribes core.rs hash_map_*, validate_hash_map_key, vm.rs build_hash_map, "
